@@ -70,6 +70,10 @@ def isBinaryNode : XExpr → Bool
   | .binary .. => true
   | _ => false
 
+def isParenNode : XExpr → Bool
+  | .paren _ => true
+  | _ => false
+
 /-- `reduceDepth`. -/
 def reduceDepth (depth : Nat) : Nat := if depth - 1 < 1 then 1 else depth - 1
 
@@ -178,9 +182,9 @@ def printE : XExpr → Nat → Nat → List PTok
     if unaryPrec < prec1 then pop .LPAREN :: pop .MUL :: printE x unaryPrec 1 ++ [pop .RPAREN]
     else pop .MUL :: printE x unaryPrec 1
   | .paren x, _, depth =>
-    match x with
-    | .paren _ => printE x lowestPrec depth
-    | _ => pop .LPAREN :: printE x lowestPrec (reduceDepth depth) ++ [pop .RPAREN]
+    -- "don't print parentheses around an already parenthesized expression"
+    if isParenNode x then printE x lowestPrec depth
+    else pop .LPAREN :: printE x lowestPrec (reduceDepth depth) ++ [pop .RPAREN]
   | .selector x sel, _, depth => printE x highestPrec depth ++ [pop .PERIOD, .t (.ident sel)]
   | .index x i, _, depth =>
     printE x highestPrec 1 ++ [pop .LBRACK] ++ printE i lowestPrec (depth + 1) ++ [pop .RBRACK]
@@ -388,6 +392,11 @@ def isUnaryOp : Op → Bool
 /-- `tokPrec` with `inRHS` set (always the case below `ParseExpr`). -/
 def tokPrec (o : Op) : Nat := if o = .ASSIGN then prec .EQL else prec o
 
+/-- `p.tok == o`. -/
+def headIs (o : Op) : List Tok → Bool
+  | .op o' :: _ => o == o'
+  | _ => false
+
 def compositeTypeOK : XExpr → Bool
   | .ident _ | .selector .. | .index .. | .bad => true
   | _ => false
@@ -399,49 +408,45 @@ mutual
 def parseLambda : Nat → Bool → List Tok → Res XExpr
   | 0, _, _ => .error .fuel
   | n + 1, tup, ts =>
-    let first : Except Fail (Option XExpr × List Tok) :=
-      match ts with
-      | .op .DRARROW :: _ => .ok (none, ts)
-      | _ => match parseBinary n false 1 true ts with
-        | .error f => .error f
-        | .ok (x, r) => .ok (some x, r)
-    match first with
-    | .error f => .error f
-    | .ok (x?, r) =>
-      match r with
-      | .op .DRARROW :: r1 =>
-        let rhs : Except Fail ((List XExpr × Bool) × List Tok) :=
-          match r1 with
-          | .op .LPAREN :: r2 =>
-            (match parseLamRhs n [] r2 with
-             | .error f => .error f
-             | .ok (l, r3) => .ok ((l, true), r3))
-          | .op .LBRACE :: _ => .error .unsupp
-          | _ =>
-            (match parseLambda n false r1 with
-             | .error f => .error f
-             | .ok (e, r3) => .ok (([e], false), r3))
-        match rhs with
-        | .error f => .error f
-        | .ok ((rl, rp), r3) =>
-          match x? with
-          | none => .ok (.lambda [] false rl rp, r3)
-          | some (.tuple items _) =>
-            (match toIdents? items with
-             | some l => .ok (.lambda l true rl rp, r3)
-             | none => .error .err)
-          | some (.paren x) =>
-            (match toIdent? (unparen x) with
-             | some s => .ok (.lambda [s] true rl rp, r3)
-             | none => .error .err)
-          | some x =>
-            (match toIdent? x with
-             | some s => .ok (.lambda [s] false rl rp, r3)
-             | none => .error .err)
+    if headIs .DRARROW ts then parseLamTail n none (ts.drop 1)          -- `=> expr`
+    else match parseBinary n false 1 true ts with
+      | .error f => .error f
+      | .ok (x, r) =>
+        if headIs .DRARROW r then parseLamTail n (some x) (r.drop 1)
+        else if isTuple x && !tup then .error .err else .ok (x, r)
+/-- The part of `parseLambdaExpr` after `=>`: right-hand side, then conversion of the
+left-hand side into identifiers. -/
+def parseLamTail : Nat → Option XExpr → List Tok → Res XExpr
+  | 0, _, _ => .error .fuel
+  | n + 1, x?, r1 =>
+    let rhs : Except Fail ((List XExpr × Bool) × List Tok) :=
+      match r1 with
+      | .op .LPAREN :: r2 =>
+        (match parseLamRhs n [] r2 with
+         | .error f => .error f
+         | .ok (l, r3) => .ok ((l, true), r3))
+      | .op .LBRACE :: _ => .error .unsupp
       | _ =>
-        match x? with
-        | none => .error .err
-        | some x => if isTuple x && !tup then .error .err else .ok (x, r)
+        (match parseLambda n false r1 with
+         | .error f => .error f
+         | .ok (e, r3) => .ok (([e], false), r3))
+    match rhs with
+    | .error f => .error f
+    | .ok ((rl, rp), r3) =>
+      match x? with
+      | none => .ok (.lambda [] false rl rp, r3)
+      | some (.tuple items _) =>
+        (match toIdents? items with
+         | some l => .ok (.lambda l true rl rp, r3)
+         | none => .error .err)
+      | some (.paren x) =>
+        (match toIdent? (unparen x) with
+         | some s => .ok (.lambda [s] true rl rp, r3)
+         | none => .error .err)
+      | some x =>
+        (match toIdent? x with
+         | some s => .ok (.lambda [s] false rl rp, r3)
+         | none => .error .err)
 /-- The `( e1, e2, ... )` right-hand side of a lambda, after `(`. -/
 def parseLamRhs : Nat → List XExpr → List Tok → Res (List XExpr)
   | 0, _, _ => .error .fuel
@@ -739,7 +744,7 @@ def parseSliceElts : Nat → List XExpr → List Tok → Res XExpr
 end
 
 /-- Fuel that suffices for every token list produced by the printer model (`C22`). -/
-def fuelFor (ts : List Tok) : Nat := 8 * ts.length + 8
+def fuelFor (ts : List Tok) : Nat := 64 * ts.length + 64
 
 /-- `parser.ParseExpr` on an already scanned token list (without the final `;`/EOF). -/
 def parseX (ts : List Tok) : Except Fail XExpr :=
